@@ -740,6 +740,15 @@ def generate(ctx, n_random, reserved, macros):
                 break
         else:
             ctx.note("generator could not place feature %s" % feat)
+    # shapes that must be present in every run (well-formed C++ on the unchanged tree)
+    for feat in ["enum-condition-constant-on-left"]:
+        for attempt in range(80):
+            m = gen_names.NamesModule(ctx.rng, reserved, macros, p_bad=0.0)
+            if feat in m.features and compile_in_process(m.files)[0] == 0:
+                mods.append(m.to_dict())
+                break
+        else:
+            ctx.note("generator could not place feature %s" % feat)
     for i in range(n_random):
         m = gen_names.NamesModule(ctx.rng, reserved, macros, p_bad=(0.0 if i % 2 == 0 else 1.0))
         mods.append(m.to_dict())
